@@ -289,6 +289,19 @@ impl RenderContext {
         !self.force_wide_buffers && self.image_header.metadata.modular_16bit_buffers
     }
 
+    /// Region a frame is rendered for. LF frames are small and the frames using them need samples
+    /// for every group they decode, so render them as a whole.
+    fn image_region_for(&self, frame: &IndexedFrame) -> Region {
+        if frame.header().frame_type == FrameType::LfFrame {
+            Region::with_size(
+                self.image_header.width_with_orientation(),
+                self.image_header.height_with_orientation(),
+            )
+        } else {
+            self.requested_image_region
+        }
+    }
+
     fn preserve_current_frame(&mut self) {
         let Some(frame) = self.loading_frame.take() else {
             return;
@@ -335,7 +348,7 @@ impl RenderContext {
         }
 
         let frame = Arc::new(frame);
-        let image_region = self.requested_image_region;
+        let image_region = self.image_region_for(&frame);
 
         if self.narrow_modular() {
             let reference_frames = ReferenceFrames {
@@ -679,8 +692,6 @@ impl RenderContext {
     }
 
     pub fn reset_cache(&mut self) {
-        let image_region = self.requested_image_region;
-
         self.loading_region = None;
         self.loading_render_cache_wide = None;
         self.loading_render_cache_narrow = None;
@@ -690,6 +701,7 @@ impl RenderContext {
             }
 
             let deps = self.frame_deps[idx];
+            let image_region = self.image_region_for(frame);
             if self.narrow_modular() {
                 let reference_frames = ReferenceFrames {
                     lf: (deps.lf != usize::MAX).then(|| Reference {
